@@ -200,6 +200,12 @@ func gostringIssues(rs *Resid, fn *ast.FuncDecl, maxIter int) ([]sideIssue, int,
 		out = append(out, sideIssue{n, fmt.Sprintf(format, a...), kind, ""})
 	}
 	paths, und := stage2Paths(rs, fn.Body, maxIter)
+	if und == "Fprintf with a non-literal format" {
+		// definite defect, not an analysis limit: whatever is concatenated into the format is scanned for verbs again, so a `%`
+		// inside a printed string value is consumed (or becomes %!x(MISSING)) and the text no longer denotes the value
+		iss(fn, "nonconstant-format", "a Fprintf call builds its format string at run time (data concatenated into the format): a %% inside a printed value is interpreted as a verb, so strings containing %% do not round-trip (or the text does not compile)")
+		return out, 1, ""
+	}
 	if und != "" {
 		return nil, 0, und
 	}
@@ -345,6 +351,8 @@ func gostringIssues(rs *Resid, fn *ast.FuncDecl, maxIter int) ([]sideIssue, int,
 			for _, m := range starTypeRe.FindAllStringSubmatch(bl.Value, -1) {
 				if h := rs.hole(m[2]); h != nil && strings.HasSuffix(h.Origin, ".Underlying()") {
 					iss(bl, "underlying-under-pointer", "prints `%s%s` with the underlying type of a component: for a named component type the rebuilt pointer is not assignable to the field (e.g. *int for a *Level field)", m[1], m[2])
+				} else if h != nil && strings.Contains(h.Origin, "types.Unalias(") {
+					iss(bl, "unaliased-under-pointer", "prints `%s%s` with the target of an alias instead of the alias the user wrote: the target may be unexported or live in a package the text does not import (type Endpoint = endpoint), so the text does not compile where the value's own type does", m[1], m[2])
 				}
 			}
 		}
